@@ -11,14 +11,29 @@ ENGINE_NOTE = ("Trusted base: go/packages + go/types + go/ssa (x/tools v0.29.0) 
                "Every run re-analyses /repo's working tree; positive controls under checker/testdata/controls must fire on every run.")
 
 claimed = {
- "C10": dict(
-  technique="abstract interpretation over SSA (relational linear domain, inlined callees) for bounds/no-panic obligations",
-  text=("For all inputs: every index, slice, make, encoding/binary access and unchecked type assertion reachable from the 53 "
-        "parsing entry points is proven safe against len (not cap), and every return path pairs a non-nil error with a nil "
-        "value. This is a sound-by-construction static argument over all byte strings, which no finite test set gives; it "
-        "is not a mechanised proof (the analyser itself is trusted), hence level 'other'."),
-  note=ENGINE_NOTE + " Not covered: panics inside standard-library callees other than encoding/binary accessors; behaviour on 32-bit int.",
-  ref="DESIGN.md §3 C10"),
+ "C01": dict(
+  technique="layout extraction by abstract interpretation of Bytes() under the constructor's success state, compared with a specification table",
+  text=("Decides for all field values: the 20 request encoders write exactly the specified ADU layout without gap or overlap "
+        "(R1.1), constructors accept only quantities inside the specification's limits with payload length tied to the quantity "
+        "(R1.2), frames fit 260/256 bytes (R1.3), coil j is bit j mod 8 of byte j div 8 for every j (R1.4), no narrow arithmetic "
+        "wraps (R1.W). FC16/FC23 constructor limits of 124 are known findings."),
+  note=ENGINE_NOTE + " The specification table in checker/spec.go is the oracle; the random transaction id is unconstrained.",
+  ref="DESIGN.md §3 C01"),
+ "C02": dict(
+  technique="symbolic round trip encode∘parse = id over a symbolic frame (parser read map composed with encoder write map)",
+  text=("For every well-formed response frame of the ten functions in both framings: the parser's result, fed to Bytes(), "
+        "reproduces the frame segment by segment (R2.1); byte-counted responses are accepted only with consistent length (R2.2); "
+        "exception frames are recognised exactly and carry unit/function/code (R2.3); dispatchers agree with parsers (R2.4)."),
+  note=ENGINE_NOTE + " Premises are printed in evidence (protocol id 0, MBAP length = len-6, function byte = case constant, legal FC5 value, fixed-size replies have their length, FC17 within one ADU).",
+  ref="DESIGN.md §3 C02"),
+ "C03": dict(
+  technique="write-map extraction with CRC16 uninterpreted; dominance of the CRC equality in the verifying parsers; loop coverage of the checksum's input",
+  text=("Decides that every RTU frame emitted ends with CRC16(buf[0:L-2]) low byte first with no later write into the body "
+        "(R3.1), that the CRC-verifying entry points reach the inner parser only under trailer == CRC16(data[0:len-2]) and reject "
+        "nothing else (R3.2), and that CRC16 reads every input byte (R3.0, a necessary condition of clause 1). That CRC16's "
+        "arithmetic equals the Modbus polynomial for every byte string is NOT decided (needs execution or a proof of the loop)."),
+  note=ENGINE_NOTE + " CRC16 is an uninterpreted function in R3.1/R3.2.",
+  ref="DESIGN.md §3 C03"),
  "C04": dict(
   technique="abstract interpretation of Registers methods under the constructor's invariant; SSA pattern extraction for layout/decode tables",
   text=("Decides, for every window position in the 16-bit address space, every address and string length: no accessor indexes "
@@ -28,6 +43,35 @@ claimed = {
         "demand (R4.3). Float value identity is not decided."),
   note=ENGINE_NOTE + " Registers values are assumed to come from NewRegisters (fields unexported; checked that no other function writes them).",
   ref="DESIGN.md §3 C04"),
+ "C07": dict(
+  technique="symbolic evaluation of ExpectedResponseLength against the specified reply length; abstract interpretation of the read loops",
+  text=("Decides necessary conditions only: ExpectedResponseLength equals the specified reply length for all quantities (R7.1; "
+        "11 formulas are known findings pinned by tests), the read loop accumulates exactly what Read returned, exits to success "
+        "only when complete (or EOF), tolerates exactly deadline/EOF errors, returns a copy of what was read (R7.2), and applies "
+        "the exception recogniser to everything received in every iteration (R7.3). Scheduling and timing are not decided."),
+  note=ENGINE_NOTE + " io.Reader contract and errors.Is as an uninterpreted predicate are assumed.",
+  ref="DESIGN.md §3 C07"),
+ "C08": dict(
+  technique="abstract interpretation + CFG rules (select on every cycle, allow-listed calls, error classification by value origin)",
+  text=("Decides structural termination and classification clauses on Do/do of both clients (R8.1-R8.5). Bounded wall-clock time "
+        "is NOT decided; finite serial reads are assumed."),
+  note=ENGINE_NOTE,
+  ref="DESIGN.md §3 C08"),
+ "C09": dict(
+  technique="symbolic round trip parse∘encode = id (parser run on the encoder's symbolic buffer) and parser accept-range extraction",
+  text=("Decides for all legal requests: the library's own frames are accepted by the per-function parsers (RTU with and without "
+        "CRC) with no feasible rejecting or panicking path, decode to equal fields (hence re-encode identically) (R9.3); parser "
+        "limits equal the specification's (R9.1); dispatchers agree (R9.4). FC1/FC2 parser limit 125 is a known finding."),
+  note=ENGINE_NOTE,
+  ref="DESIGN.md §3 C09"),
+ "C10": dict(
+  technique="abstract interpretation over SSA (relational linear domain, inlined callees) for bounds/no-panic obligations",
+  text=("For all inputs: every index, slice, make, encoding/binary access and unchecked type assertion reachable from the 53 "
+        "parsing entry points is proven safe against len (not cap), and every return path pairs a non-nil error with a nil "
+        "value. This is a sound-by-construction static argument over all byte strings, which no finite test set gives; it "
+        "is not a mechanised proof (the analyser itself is trusted), hence level 'other'."),
+  note=ENGINE_NOTE + " Not covered: panics inside standard-library callees other than encoding/binary accessors; behaviour on 32-bit int.",
+  ref="DESIGN.md §3 C10"),
  "C11": dict(
   technique="abstract interpretation + SSA value-identity extraction of the (byte, bit) position functions of isBitSet and CoilsToBytes",
   text=("Decides the coil position function of the lookup and of the packer symbolically for all addresses and payload sizes, "
@@ -36,6 +80,20 @@ claimed = {
         "a known finding (pinned by existing tests)."),
   note=ENGINE_NOTE,
   ref="DESIGN.md §3 C11"),
+ "C18": dict(
+  technique="constant-table comparison, abstract interpretation of the classifier on the encoders' symbolic buffers for every prefix length",
+  text=("Decides table agreement (R18.1), expected length = 6 + length field (R18.2), too-short exactly below 8 bytes and "
+        "acceptance of every prefix >= 8 of every encodable request with the right length (R18.3; FC17 is a known finding), "
+        "addressed unsupported-function exception (R18.4), no panic in the dispatcher on accepted frames (R18.5)."),
+  note=ENGINE_NOTE,
+  ref="DESIGN.md §3 C18"),
+ "C19": dict(
+  technique="value identity of hook arguments with transport call arguments/results in the abstract interpretation; CFG placement rules",
+  text=("Decides that the six hook call sites receive exactly the written slice, the chunk/count/error of the Read of the same "
+        "iteration and the frame handed to the parser, are evaluated once per event on every path, and cannot influence the "
+        "outcome (R19.1-R19.4). User hook bodies are outside."),
+  note=ENGINE_NOTE,
+  ref="DESIGN.md §3 C19"),
 }
 
 m = {
